@@ -2195,7 +2195,7 @@ def gen_impure_rankers(rng, tier):
                list(b"the quick brown fox jumps over the lazy dog"), [(i * 7) % 256 for i in range(300)]]
     for needle in needles:
         for mode in ("up", "down", "alt", "lcg"):
-            yield ("pairimp %s %s" % (mode, hx(needle)), dict(cfg="host", family="pairimp", modelless=True))
+            yield ("pairimp %s %s" % (mode, hx(needle)), dict(cfg="host", family="pairimp"))
             hay = [0x2E] * 70 + needle + [0x2E] * 9
             yield ("findimp %s %s %s" % (mode, hx(needle), hx(hay)), dict(cfg="host", family="findimp", modelless=True))
 
